@@ -116,7 +116,11 @@ func checkpointScenario(c *sup.Ctx, r *rng.R, props []string) {
 	}
 	writers := 1 + r.Intn(6)
 	restarts := 3 + r.Intn(6)
-	res, msg, detail := conc.CheckpointRun(m, writers, 20+r.Intn(30), 4, restarts, r)
+	keysOnly := (c.Local/3)%3 == 2 // a checkpointed feed may be KeysOnly too
+	if keysOnly {
+		c.Count("checkpoint_scenarios_with_a_keysonly_feed", 1)
+	}
+	res, msg, detail := conc.CheckpointRun(m, writers, 20+r.Intn(30), 4, restarts, keysOnly, r)
 	c.Count("checkpoint_scenarios", 1)
 	c.Count("feed_runs", int64(res.Runs))
 	c.Count("feed_stops", int64(res.Runs-1))
